@@ -1461,6 +1461,135 @@ def _unroll_table_loops(body: List[ast.stmt], table_of) -> bool:
     return changed
 
 
+# ---------------------------------------------------------------------------------------------------------- conditional expressions on a flag
+def _split_flag_ifexp(fn: ast.FunctionDef) -> bool:
+    """`x = A if flag else B` where the local flag (bound once) also guards statements elsewhere in the function becomes
+    `if flag: x = A else: x = B`: the two definitions of x are then tied to the flag's outcome like the later `if flag:` is."""
+    stores: Dict[str, int] = {}
+    for n in ast.walk(fn):
+        if isinstance(n, ast.Name) and isinstance(n.ctx, ast.Store):
+            stores[n.id] = stores.get(n.id, 0) + 1
+    tested = set()
+    for n in ast.walk(fn):
+        if isinstance(n, ast.If):
+            for x in ast.walk(n.test):
+                if isinstance(x, ast.Name):
+                    tested.add(x.id)
+    changed = [False]
+
+    def flag_of(t):
+        if isinstance(t, ast.UnaryOp) and isinstance(t.op, ast.Not):
+            t = t.operand
+        return t.id if isinstance(t, ast.Name) and stores.get(t.id) == 1 and t.id in tested else None
+
+    def visit(body: List[ast.stmt]):
+        for i, st in enumerate(list(body)):
+            for field in ("body", "orelse", "finalbody"):
+                sub = getattr(st, field, None)
+                if isinstance(sub, list) and sub and isinstance(sub[0], ast.stmt) and not isinstance(st, (ast.FunctionDef, ast.AsyncFunctionDef, ast.ClassDef)):
+                    visit(sub)
+            if isinstance(st, ast.Try):
+                for h in st.handlers:
+                    visit(h.body)
+            if isinstance(st, ast.Assign) and len(st.targets) == 1 and isinstance(st.targets[0], ast.Name) and isinstance(st.value, ast.IfExp) \
+                    and flag_of(st.value.test) and st.targets[0].id != flag_of(st.value.test):
+                a = ast.Assign(targets=[copy.deepcopy(st.targets[0])], value=st.value.body)
+                b = ast.Assign(targets=[copy.deepcopy(st.targets[0])], value=st.value.orelse)
+                new = ast.If(test=st.value.test, body=[a], orelse=[b])
+                for x in (a, b, new):
+                    ast.copy_location(x, st)
+                ast.fix_missing_locations(new)
+                body[body.index(st)] = new
+                changed[0] = True
+    visit(fn.body)
+    return changed[0]
+
+
+# ---------------------------------------------------------------------------------------------------------- assignment expressions
+def _hoist_walrus(body: List[ast.stmt]) -> bool:
+    """`if isinstance((x := E), T):` -> `x = E` / `if isinstance(x, T):` when the assignment expression is what the statement
+    evaluates first (the leftmost-evaluation spine of an if test, an assignment value, a return value, an expression statement);
+    `if A and (x := B): BODY` without else -> `if A: x = B; if x: BODY`.  `while` tests and comprehensions are left alone."""
+    changed = False
+
+    def spine_walrus(e, parent=None, field=None, index=None):
+        """(NamedExpr, setter that replaces it) when it sits on the leftmost-evaluation spine of e"""
+        if isinstance(e, ast.NamedExpr):
+            return e, parent, field, index
+        if isinstance(e, ast.BoolOp):
+            return spine_walrus(e.values[0], e, "values", 0)
+        if isinstance(e, ast.Compare):
+            return spine_walrus(e.left, e, "left", None)
+        if isinstance(e, ast.UnaryOp):
+            return spine_walrus(e.operand, e, "operand", None)
+        if isinstance(e, ast.Call) and isinstance(e.func, ast.Name) and e.args and not isinstance(e.args[0], ast.Starred):
+            return spine_walrus(e.args[0], e, "args", 0)
+        if isinstance(e, ast.Call) and isinstance(e.func, ast.Attribute):
+            return spine_walrus(e.func.value, e.func, "value", None)
+        if isinstance(e, ast.Attribute):
+            return spine_walrus(e.value, e, "value", None)
+        if isinstance(e, ast.Subscript):
+            return spine_walrus(e.value, e, "value", None)
+        if isinstance(e, ast.BinOp):
+            return spine_walrus(e.left, e, "left", None)
+        if isinstance(e, ast.IfExp):
+            return spine_walrus(e.test, e, "test", None)
+        return None
+    i = 0
+    while i < len(body):
+        st = body[i]
+        for field in ("body", "orelse", "finalbody"):
+            sub = getattr(st, field, None)
+            if isinstance(sub, list) and sub and isinstance(sub[0], ast.stmt) and not isinstance(st, (ast.FunctionDef, ast.AsyncFunctionDef, ast.ClassDef)):
+                changed |= _hoist_walrus(sub)
+        if isinstance(st, ast.Try):
+            for h in st.handlers:
+                changed |= _hoist_walrus(h.body)
+        holder, attr = None, None
+        if isinstance(st, ast.If):
+            holder, attr = st, "test"
+        elif isinstance(st, (ast.Assign, ast.AnnAssign, ast.Return, ast.Expr, ast.AugAssign)) and getattr(st, "value", None) is not None:
+            holder, attr = st, "value"
+        if holder is not None:
+            e = getattr(holder, attr)
+            found = spine_walrus(e, holder, attr, None)
+            if found is not None and isinstance(found[0].target, ast.Name):
+                w, par, fld, idx = found
+                name = ast.copy_location(ast.Name(id=w.target.id, ctx=ast.Load()), w)
+                if idx is None:
+                    setattr(par, fld, name)
+                else:
+                    getattr(par, fld)[idx] = name
+                assign = ast.copy_location(ast.Assign(targets=[ast.Name(id=w.target.id, ctx=ast.Store())], value=w.value), st)
+                ast.fix_missing_locations(assign)
+                body.insert(i, assign)
+                changed = True
+                continue        # the same statement again (there may be another one)
+            # if A and (x := B): BODY   (no else)
+            if isinstance(st, ast.If) and not st.orelse and isinstance(st.test, ast.BoolOp) and isinstance(st.test.op, ast.And) and len(st.test.values) >= 2:
+                for k in range(1, len(st.test.values)):
+                    f2 = spine_walrus(st.test.values[k], st.test, "values", k)
+                    if f2 is not None and isinstance(f2[0], ast.NamedExpr) and not any(isinstance(x, ast.NamedExpr) for v in st.test.values[:k] for x in ast.walk(v)):
+                        first = st.test.values[:k]
+                        rest = st.test.values[k:]
+                        outer_test = first[0] if len(first) == 1 else ast.BoolOp(op=ast.And(), values=first)
+                        inner_test = rest[0] if len(rest) == 1 else ast.BoolOp(op=ast.And(), values=rest)
+                        inner = ast.If(test=inner_test, body=st.body, orelse=[])
+                        outer = ast.If(test=outer_test, body=[inner], orelse=[])
+                        for x in (inner, outer):
+                            ast.copy_location(x, st)
+                        ast.fix_missing_locations(outer)
+                        body[i] = outer
+                        changed = True
+                        break
+                else:
+                    i += 1
+                    continue
+                continue
+        i += 1
+    return changed
+
+
 # ---------------------------------------------------------------------------------------------------------- reflective calls over a closed domain
 def _attr_domain(cls: ast.ClassDef, attr: str):
     """The constants an instance attribute can hold besides a falsy "not set": `__init__` rejects every other value
@@ -1951,6 +2080,13 @@ def normalize_module_trees(modules: Dict[str, ast.Module]) -> List[str]:
                         if isinstance(f, ast.Name) and f.id in class_defs and f.id not in KNOWN_CLASSES:
                             return class_defs[f.id]
                         return None
+                    if _split_flag_ifexp(fn):
+                        any_change = True
+                        log.append("%s.%s: conditional expression on a flag split into branches" % (cls.name if cls else mn, fn.name))
+                    if _hoist_walrus(fn.body):
+                        any_change = True
+                        log.append("%s.%s: assignment expression(s) hoisted" % (cls.name if cls else mn, fn.name))
+                        ast.fix_missing_locations(fn)
                     nd_ = _rewrite_domain_getattr(fn, cls) + _rewrite_dict_attr(fn)
                     if nd_:
                         any_change = True
